@@ -288,6 +288,16 @@ def r5_7(ctx, rc):
     r11_1(ctx, rc)
 
 
+def r5_8(ctx, rc):
+    """The overlay's bookkeeping: forgetting a failed output is the inverse
+    of registering it (count arithmetic and the ancestor walk)."""
+    from .refcount import refcount_rule, ancestor_walk_rule
+    refcount_rule(ctx, rc, 'CreatedFiles.started_building_file',
+                  'CreatedFiles.error_building_file', same_stop=False)
+    ancestor_walk_rule(ctx, rc, 'CreatedFiles.started_building_file',
+                       'CreatedFiles.error_building_file')
+
+
 RULES = [
     ('R5.1', 'listings are sorted before they are recorded', r5_1),
     ('R5.2', 'failures are not served at top level; nested ones reusable',
@@ -297,4 +307,6 @@ RULES = [
     ('R5.5', 'the replayed query is the recorded query', r5_5),
     ('R5.6', 'a reused subtree is re-registered completely', r5_6),
     ('R5.7', 'recorded arguments are not aliased with the callee', r5_7),
+    ('R5.8', 'overlay: forgetting a failed output inverts registering it',
+     r5_8),
 ]
